@@ -326,13 +326,18 @@ func runC15Pure(c *Ctx) {
 	}
 	// a diagnostic is dropped iff a pattern matches: the only `continue` edges are under Match calls
 	matches := 0
-	eachInstr(fn, func(_ *ssa.BasicBlock, _ int, in ssa.Instruction) {
-		if call, ok := in.(ssa.CallInstruction); ok {
-			if f := staticCallee(call.Common()); f != nil && FuncName(f) == "(IgnorePatterns).Match" {
-				matches++
-			}
+	for _, hf := range p.withHelpers(fn, 1) {
+		if FuncName(hf) == "(IgnorePatterns).Match" {
+			continue
 		}
-	})
+		eachInstr(hf, func(_ *ssa.BasicBlock, _ int, in ssa.Instruction) {
+			if call, ok := in.(ssa.CallInstruction); ok {
+				if f := staticCallee(call.Common()); f != nil && FuncName(f) == "(IgnorePatterns).Match" {
+					matches++
+				}
+			}
+		})
+	}
 	if matches >= 2 {
 		c.ok("(*Linter).filterErrors|patterns consulted", fn.Pos(), fmt.Sprintf("%d IgnorePatterns.Match calls (command line and per-path config)", matches))
 	} else {
